@@ -55,6 +55,17 @@ PROPS = {
               "abs_diff_ne!: the scalar's abs_diff_eq with default epsilon, specified by ApproxSpecR (|a-b| <= eps); for Xq eps = 2^-52",
               "planar with fovy = 0 divides by zero in exact arithmetic (IEEE infinity in floats): float-only limit case, not claimed"],
              trusted=["rustc monomorphisation of the generic code at Xq"]),
+    "C15": P(15, axioms=R_AXIOMS, axiom_patterns=[r"PrimInt63\..*", r"Uint63\..*", r"PrimFloat\..*", r"FloatAxioms\..*", r"Sint63\..*", r"FloatOps\..*"],
+             assumptions=["model (coq/Model/Rotation.v: quat_between_vectors, basis3/basis2_between_vectors, quat_from_arc) is hand-written; tied to /repo by the exact-arithmetic correspondence of this run",
+              "theorems are over the reals; ulps_eq! is an oracle specified by UlpsSpec (reflexive; a true answer means |x-y| <= eps + rel max(|x|,|y|)); C15_tolerances instantiates the binary64 parameters",
+              "between_vectors' first test compares a.b with 1 (unit vectors are the documented domain); the general-branch theorem is also proved for arbitrary non-zero lengths",
+              "from_arc's antiparallel branch is the rotation by the scalar's turn_div_2 (cast(2 pi)/2, within 1.3e-16 of pi) about the fallback axis; that it is a rotation about that axis is C06",
+              "Basis2::between_vectors: the theorem is about the code as repaired by /repo 7a36dab; the previous formula is refuted by C15_basis2_between_old_refuted",
+              "the correspondence needs exact square roots: pairs lie in rational planes at an angle 2p with rational cos p, sin p; antiparallel inputs have a rational-length candidate axis"],
+             rule="3-D pairs in rational planes: generic angles of both orientations, nearly parallel inside (2^-30) and outside (2^-20) the tolerance, equal, nearly antiparallel, exactly antiparallel "
+                  "(generic and along each coordinate axis, both signs); from_arc with rational lengths, with and without a fallback axis; 2-D lattice pairs of both orientations, quarter turns, "
+                  "antiparallel, non-unit; non-trivial = tag nt:*; distinct by hash",
+             trusted=["rustc monomorphisation of the generic code at Xq and f64", "the Xq implementation of approx::UlpsEq (mirrors ExecQ.qc_ulps_eq, binary64 parameters)"]),
     "C16": P(16, pre=pre_swizzle,
              assumptions=["model (coq/Model/Layout.v) is hand-written; the swizzle table (coq/Exec/SwizzleTable_gen.v) is REGENERATED from the build output of /repo's build.rs on every run and the finite theorems are re-checked against it",
               "that transmute between repr(C) structs and arrays/tuples is defined behaviour is a property of rustc's layout; the model shows that IF fields are laid out in declaration order without padding the views agree, and the harness observes that they do",
